@@ -154,6 +154,16 @@ def element_junction_tuples(include_node_elements=True, include_branch_elements=
     return ejts
 
 
+def _holds_junctions(net, element, column):
+    """
+    Mask of the rows of net[element] for which `column` refers to a junction. This is not the case
+    for the "element" column of valves that are connected to a pipe (et == "pi").
+    """
+    if element in ("valve", "res_valve") and column == "element" and "valve" in net:
+        return (net["valve"]["et"] != "pi").reindex(net[element].index, fill_value=True).values
+    return np.ones(len(net[element]), dtype=bool)
+
+
 def pp_elements(junction=True, include_node_elements=True, include_branch_elements=True,
                 include_res_elements=False, net=None):
     """
@@ -261,7 +271,8 @@ def reindex_elements(net, element, lookup):
     if element == "junction":
         for element, value in element_junction_tuples(net=net):
             if element in net.keys():
-                net[element][value] = get_indices(net[element][value], lookup)
+                rows = _holds_junctions(net, element, value)
+                net[element].loc[rows, value] = get_indices(net[element].loc[rows, value], lookup)
     elif element == "pipe":
         if "valve" in net:
             pipe_valves = net["valve"].loc[net["valve"]["et"] == "pi", "element"]
@@ -333,7 +344,8 @@ def create_continuous_elements_index(net, start=0, add_df_to_reindex=None, store
     :rtype: pandapipesNet
     """
     add_df_to_reindex = set() if add_df_to_reindex is None else set(add_df_to_reindex)
-    elements = pp_elements(include_res_elements=True, net=net)
+    # the result tables are reindexed together with their element tables
+    elements = pp_elements(include_res_elements=False, net=net)
     elements |= add_df_to_reindex
 
     # run reindex_elements() for all elements
@@ -366,7 +378,7 @@ def fuse_junctions(net, j1, j2, drop=True):
     j2 = set(j2) - {j1} if isinstance(j2, Iterable) else [j2]
 
     for element, value in element_junction_tuples(net=net):
-        i = net[element][net[element][value].isin(j2)].index
+        i = net[element][net[element][value].isin(j2) & _holds_junctions(net, element, value)].index
         net[element].loc[i, value] = j1
 
     if drop:
@@ -405,8 +417,12 @@ def select_subnet(net, junctions, include_results=False, keep_everything_else=Fa
     comp_junc_rows = {tbl: [jr for el, jr in comp_tuples if el == tbl] for tbl in
                       set([v[0] for v in comp_tuples])}
     for comp_tbl, junc_rows in comp_junc_rows.items():
-        isin_all = np.all([net[comp_tbl][jr].isin(junctions) for jr in junc_rows], axis=0)
+        isin_all = np.all([net[comp_tbl][jr].isin(junctions) | ~_holds_junctions(net, comp_tbl, jr)
+                           for jr in junc_rows], axis=0)
         p2[comp_tbl] = net[comp_tbl][isin_all]
+    if "valve" in p2 and "pipe" in p2:
+        # valves at a pipe end are only kept together with their pipe
+        p2["valve"] = p2["valve"][(p2["valve"]["et"] != "pi") | p2["valve"]["element"].isin(p2["pipe"].index)]
 
     if include_results:
         for table in net.keys():
@@ -480,8 +496,9 @@ def drop_elements_at_junctions(net, junctions, node_elements=True, branch_elemen
     """
     for element, column in element_junction_tuples(node_elements, branch_elements,
                                                    include_res_elements=False, net=net):
-        if any(net[element][column].isin(junctions)):
-            eid = net[element][net[element][column].isin(junctions)].index
+        at_junctions = net[element][column].isin(junctions) & _holds_junctions(net, element, column)
+        if any(at_junctions):
+            eid = net[element][at_junctions].index
             if element == 'pipe':
                 drop_pipes(net, eid)
             # elif element == 'trafo' or element == 'trafo3w':
@@ -514,6 +531,12 @@ def drop_pipes(net, pipes):
     if "res_pipe" in net.keys():
         res_pipes = net.res_pipe.index.intersection(pipes)
         net["res_pipe"].drop(res_pipes, inplace=True)
+    if "valve" in net:
+        # valves at the ends of the dropped pipes would refer to missing pipes
+        pipe_valves = net["valve"].index[(net["valve"]["et"] == "pi") & net["valve"]["element"].isin(pipes)]
+        net["valve"].drop(pipe_valves, inplace=True)
+        if "res_valve" in net.keys():
+            net["res_valve"].drop(net["res_valve"].index.intersection(pipe_valves), inplace=True)
     logger.info("dropped %d pipes" % len(list(pipes)))
 
 
